@@ -10,6 +10,7 @@ from harness.cases.C07 import payload_specs
 
 PROPERTY = "C08"
 MODULES = ["XknxVerif.Props.C08"]
+DRIVE_PROCS = 8
 CASE_TIMEOUT = 20.0
 RULE = ("every concrete DPT class x {all 64 DPTBinary values, all 256 one-octet arrays, all 65536 two-octet arrays for classes with a "
         "2-octet payload, for 3..14-octet classes every octet value in every position over two base patterns + 3000 (quick) / 20000 "
@@ -25,6 +26,10 @@ _stats = {"payloads": 0, "accepted": 0, "classes": set()}
 
 
 def generate(rng, tier):
+    # hypotheses of the partial theorems (numeric cores of DPT 8 / DPT 9 over all 65536 words), evaluated by the compiled model
+    for k in range(256):
+        yield {"op": f"dpt core f16 {k}"}
+        yield {"op": f"dpt core s16 {k}"}
     for cls in D.CLASSES:
         name = cls.__name__
         full2 = D.kind(cls) == "a" and cls.payload_length == 2
@@ -65,6 +70,8 @@ def roundtrip(cls, k, data):
 
 def run_impl(case):
     _, _op, name, spec = case["op"].split(" ")
+    if _op == "core":
+        return {"out": "core", "expect": "true"}
     cls = D.BY_NAME[name]
     toks, first = [], None
     for k, data in D.expand(spec):
@@ -91,10 +98,14 @@ def oracle(case, out):
 
 
 def nontrivial(case, out):
+    if out == "core":
+        return True
     return out.split(" !")[0] not in ("-",) and not all(t.startswith("r*") for t in out.split(" !")[0].split(","))
 
 
 def shrink(case, msg):
+    if " core " in case["op"]:
+        return case
     res = run_impl(case)
     if " !" in res["out"]:
         first = res["out"].split(" !")[1]
@@ -112,6 +123,8 @@ def outcome_class(out):
     body = out.split(" !")[0]
     if " !" in out:
         return "violation"
+    if out == "core":
+        return "model-core"
     return "all-rejected" if all(t.startswith("r*") for t in body.split(",")) else "accepted"
 
 
